@@ -1,5 +1,10 @@
 //! Shared machinery of the correspondence harness: PRNG, S-expression printing, case emitter.
+pub mod gm;
 pub mod out;
 pub mod rec;
 pub mod rng;
+pub mod sem_util;
 pub mod sx;
+pub mod market_h;
+pub mod hash_util;
+pub mod table_actor;
